@@ -554,6 +554,10 @@ def run(ctx):
            "samples": [{"task": i[0], "opts": i[1], "variant": i[2]}
                        for i in (items[0], items[5], items[-1])],
            "exhaustive": True}
+    # one large input (30000 events) through this property's entry points
+    from .. import big
+    viols = list(viols) + big.violations("C08", ctx.scratch)
+    cov["big_input_events"] = big.N
     return {"level": LEVEL, "coverage": cov, "violations": viols,
             "assumptions": [
                 "zero-length datasets are equivalent to absent ones",
@@ -563,6 +567,9 @@ def run(ctx):
 
 
 def replay(case, ctx):
+    if case.get("kind") == "big":
+        from .. import big
+        return big.violations("C08", ctx.scratch)
     if case["kind"] == "collision":
         return _collision_case((case["task"], case["how"], case["seed"],
                                 ctx.scratch))[0]
